@@ -60,7 +60,7 @@ PROPS = {
              ["marks are modelled as Nat; HashMap/HashSet as lists observed through membership only"]),
     'C10': P('C10', [('lines', 900, 7200), ('block', 6000, 48000), ('pipeline', 1500, 12000), ('inline', 2500, 20000)], ('C10', 20000, 160000),
              "oracle: LF->CRLF, LF->CR and final-newline relations on the real crate for all generators x configuration sample incl. sourcepos",
-             [], extra_modules=('C10Sourcepos', ('DocTotal', r'invariant_full'), ('BlockTotal', r'parseBlocks_fuel|tokenize_nf|testRules_nf'), 'C10Doc', ('Pipeline', r'doc_line_ending_reduction|render_ranges_irrelevant|erase_joinNode|spliceNode_congr'),)),
+             [], extra_modules=('DocTotal2', 'C10Sourcepos', ('DocTotal', r'invariant_full'), ('BlockTotal', r'parseBlocks_fuel|tokenize_nf|testRules_nf'), 'C10Doc', ('Pipeline', r'doc_line_ending_reduction|render_ranges_irrelevant|erase_joinNode|spliceNode_congr'),)),
     'C11': P('C11', [('codepair', 10000, 80000), ('lines', 600, 4800), ('block', 6000, 48000), ('pipeline', 1500, 12000)], ('C11', 20000, 160000),
              "oracle: payloads (fence look-alikes, entity/escape-like text, tabs, NUL, blank lines) x fenced/indented/span x nesting depth 0-3; node content and rendered <code> compared with the payload",
              ["span payloads: continuation lines do not start a block construct (block structure wins in CommonMark)"], extra_modules=(('C14Doc', r'doc_fence|doc_indented'), ('Block', r'verbatim'),)),
